@@ -164,3 +164,114 @@ def superseeded(ctx):
         ctx.oblige(f"post#{i}", s, z3.Implies(z3.And(t, lhs_holds), rhs_holds), replay={"mirror": "superseeded"}, hints=hints)
     ctx.cover("some-true-path", [z3.BoolVal(n_true > 0)])
     no_raise(ctx, "no-raise", res, kind="assert")
+
+
+# ---------------------------------------------------------------------------------------------
+# boolean constants
+class BoolSem:
+    """satisfaction of a body element as far as #true/#false are concerned:
+    Literal(sign, BooleanConstant(v)) -> signed(sign, v);  ConditionalLiteral(l, []) -> l;  otherwise uninterpreted"""
+
+    def __init__(self, ctx):
+        self.sem = sem_of(ctx)
+        m = self.m = ctx.m
+        self.U = z3.Function("holds_u", m.AST, self.sem.Env, self.sem.Interp, z3.BoolSort())
+
+    def lit(self, x, env, I):
+        A = self.m.AST
+        return z3.If(
+            z3.And(A.is_Literal(x), A.is_BooleanConstant(A.Literal_atom(x))),
+            self.sem.signed(A.Literal_sign(x), A.BooleanConstant_value(A.Literal_atom(x))),
+            self.U(x, env, I),
+        )
+
+    def holds(self, x, env, I):
+        A, m = self.m.AST, self.m
+        return z3.If(
+            z3.And(A.is_ConditionalLiteral(x), m.len(A.ConditionalLiteral_condition(x), "ast") == 0),
+            self.lit(A.ConditionalLiteral_literal(x), env, I),
+            self.lit(x, env, I),
+        )
+
+
+def _bool_pred(fname, positive):
+    @unit(f"C08.{fname}", "C08", f"ngo.cleanup:CleanupTranslator.{fname}")
+    def _u(ctx):
+        """true(x) => x is satisfied by every interpretation and assignment; false(x) => by none"""
+        bs = BoolSem(ctx)
+        wf, m = wf_of(ctx), ctx.m
+        x = ctx.sym("stm", "ast")
+        st = ctx.state()
+        st.assume(wf.wf("body_literal", x.term, 2))
+        res = ctx.call(st, ctx.method("ngo.cleanup", "CleanupTranslator", fname, None), [x])
+        ok, bad = returned(res)
+        ctx.cover("reach", st)
+        env, I = z3.Const("env", bs.sem.Env), z3.Const("I", bs.sem.Interp)
+        for i, (s, r) in enumerate(ok):
+            t = ctx.ex.as_z3_bool(ctx.ex.truth(s, r))
+            h = bs.holds(x.term, env, I)
+            ctx.oblige(f"post#{i}", s, z3.Implies(t, h if positive else z3.Not(h)), replay={"mirror": "bool_const", "fname": fname})
+        no_raise(ctx, "no-raise", res)
+
+
+_bool_pred("true", True)
+_bool_pred("false", False)
+
+
+def _all_hold(bs, m, lst_term, env, I):
+    ln, at = m.lst_funcs("ast")
+    i = z3.Int(f"i!ah{fresh_id()}")
+    return z3.ForAll([i], z3.Implies(z3.And(0 <= i, i < ln(lst_term)), bs.holds(at(lst_term, i), env, I)), patterns=[at(lst_term, i)])
+
+
+def _wf_list(ctx, st, sv, kind, depth=2):
+    wf, m = wf_of(ctx), ctx.m
+    ln, at = m.lst_funcs("ast")
+    i = z3.Int(f"i!wl{fresh_id()}")
+    st.assume(z3.ForAll([i], z3.Implies(z3.And(0 <= i, i < ln(sv.term)), wf.wf(kind, at(sv.term, i), depth)), patterns=[at(sv.term, i)]))
+
+
+@unit("C08.remove_true_literals", "C08", "ngo.cleanup:CleanupTranslator.remove_true_literals")
+def remove_true_literals(ctx):
+    """the conjunction of the returned literals is equivalent to the conjunction of the given ones,
+    and the result only contains given literals (#true is neutral, nothing else is dropped)"""
+    bs = BoolSem(ctx)
+    m = ctx.m
+    st = ctx.state()
+    lits = ctx.sym("lits", ("list", "ast"))
+    _wf_list(ctx, st, lits, "body_literal")
+    res = ctx.call(st, ctx.method("ngo.cleanup", "CleanupTranslator", "remove_true_literals", None), [lits])
+    ok, bad = returned(res)
+    ctx.cover("reach", st)
+    env, I = z3.Const("env", bs.sem.Env), z3.Const("I", bs.sem.Interp)
+    ln, at = m.lst_funcs("ast")
+    for n, (s, r) in enumerate(ok):
+        rt = ctx.ex.to_term(s, r, ("list", "ast"))
+        ctx.oblige(f"post-equiv#{n}", s, _all_hold(bs, m, lits.term, env, I) == _all_hold(bs, m, rt, env, I), replay={"mirror": "remove_true_literals"})
+        j, k = z3.Int("j!sub"), z3.Int("k!sub")
+        ctx.oblige(
+            f"post-sublist#{n}",
+            s,
+            z3.ForAll([j], z3.Implies(z3.And(0 <= j, j < ln(rt)), z3.Exists([k], z3.And(0 <= k, k < ln(lits.term), at(lits.term, k) == at(rt, j))))),
+            kind="frame",
+            replay={"mirror": "remove_true_literals"},
+        )
+    no_raise(ctx, "no-raise", res)
+
+
+@unit("C08.contains_false", "C08", "ngo.cleanup:CleanupTranslator.contains_false")
+def contains_false(ctx):
+    """contains_false(lits) => the conjunction of lits is unsatisfiable (so dropping the statement / element is sound)"""
+    bs = BoolSem(ctx)
+    m = ctx.m
+    st = ctx.state()
+    lits = ctx.sym("lits", ("list", "ast"))
+    _wf_list(ctx, st, lits, "body_literal")
+    res = ctx.call(st, ctx.method("ngo.cleanup", "CleanupTranslator", "contains_false", None), [lits])
+    ok, bad = returned(res)
+    ctx.cover("reach", st)
+    env, I = z3.Const("env", bs.sem.Env), z3.Const("I", bs.sem.Interp)
+    for n, (s, r) in enumerate(ok):
+        t = ctx.ex.as_z3_bool(ctx.ex.truth(s, r))
+        ctx.oblige(f"post#{n}", s, z3.Implies(t, z3.Not(_all_hold(bs, m, lits.term, env, I))), replay={"mirror": "contains_false"})
+    no_raise(ctx, "no-raise", res)
